@@ -187,6 +187,14 @@ func runC18(r *Run) {
 				r.Fail("not-finite", key, "Add(%v) returned %v (Get %v) [%s]", op.x, v, after, mf.name)
 				return
 			}
+			if key == "variance" && after >= 0 {
+				// what Add returns is the standard deviation of the variance Get reports - after every Add, whatever
+				// Update did to the stored value before
+				if sd := math.Sqrt(after); math.Abs(v-sd) > 1e-9*math.Max(1, sd) {
+					r.Fail("wrong-value", key+"/stdev", "Add(%v) returned %v as the standard deviation while Get() reports the variance %v (square root %v) [%s]", op.x, v, after, sd, mf.name)
+					return
+				}
+			}
 			if key == "variance" {
 				// Add returns (and stores) the standard deviation while Get reports the variance; Update overwrites
 				// the stored deviation only. The flag is therefore compared with the previously returned deviation,
